@@ -26,7 +26,8 @@ def run(prop, tier):
             if r['rc'] != 0 or r['errors']:
                 raise tlc.TlcError('Laws.tla: ' + '\n'.join(r['errors'][:20]))
             res.add_tlc(r['stats'])
-            found = [tlc.json_payload(l, 'VEC') for l in r['tagged'].get('VEC', [])]
+            found = sorted((tlc.json_payload(l, 'VEC') for l in r['tagged'].get('VEC', [])),
+                           key=lambda v: json.dumps([v['law'], v['lhs'], v['rhs']], sort_keys=True))
             flagged = [v for v in found if v['mv'][0] == 'viol']
             rest = [v for v in found if v['mv'][0] != 'viol']
             if budget is not None and len(rest) > budget:
